@@ -290,6 +290,7 @@ type c03hostile struct {
 	XKind   string
 	XStream []byte
 	XRef    string // "valid", "unknown", "badproto", "short"
+	XGrant  string // how the request that obtains the reference number is malformed: "", "no-size", "short-size", "no-count", "short-count"
 	Close   bool
 }
 
@@ -351,9 +352,10 @@ func c03prop(ev *evid.Rec) func(rt *rapid.T) {
 			case "transfer":
 				h.XKind = rapid.SampledFrom([]string{"upload", "upload", "folderup", "folderdown", "download"}).Draw(rt, l+"_xkind")
 				h.XRef = rapid.SampledFrom([]string{"valid", "valid", "valid", "unknown", "badproto", "short"}).Draw(rt, l+"_xref")
+				h.XGrant = rapid.SampledFrom([]string{"", "", "no-size", "short-size", "no-count", "short-count"}).Draw(rt, l+"_xgrant")
 				var d string
 				h.XStream, d = c03HostileTransfer(rt, l+"_x", h.XKind)
-				h.Desc = append(h.Desc, "transfer:"+d+" ref="+h.XRef)
+				h.Desc = append(h.Desc, "transfer:"+d+" ref="+h.XRef+" grant="+h.XGrant)
 			}
 			hs = append(hs, h)
 		}
@@ -438,10 +440,28 @@ func c03prop(ev *evid.Rec) func(rt *rapid.T) {
 					if h.Mode == "transfer" && lv.in && h.XRef == "valid" {
 						var r *hlref.Tran
 						switch h.XKind {
-						case "upload":
-							r = lv.c.Request(hlref.TranUploadFile, sfld(hlref.FFileName, fmt.Sprintf("up%d.bin", i)), fld(hlref.FTransferSize, hlref.BE32(500)))
-						case "folderup":
-							r = lv.c.Request(hlref.TranUploadFldr, sfld(hlref.FFileName, fmt.Sprintf("upf%d", i)), fld(hlref.FTransferSize, hlref.BE32(500)), fld(hlref.FFolderItemCount, hlref.BE16(3)))
+						case "upload", "folderup":
+							// the transfer's size and item count are kept as the client sent them: they may be missing or short
+							fs := []hlref.Field{sfld(hlref.FFileName, fmt.Sprintf("up%d", i))}
+							switch h.XGrant {
+							case "no-size":
+							case "short-size":
+								fs = append(fs, fld(hlref.FTransferSize, []byte{1}))
+							default:
+								fs = append(fs, fld(hlref.FTransferSize, hlref.BE32(500)))
+							}
+							typ := hlref.TranUploadFile
+							if h.XKind == "folderup" {
+								typ = hlref.TranUploadFldr
+								switch h.XGrant {
+								case "no-count":
+								case "short-count":
+									fs = append(fs, fld(hlref.FFolderItemCount, []byte{3}))
+								default:
+									fs = append(fs, fld(hlref.FFolderItemCount, hlref.BE16(3)))
+								}
+							}
+							r = lv.c.Request(typ, fs...)
 						case "folderdown":
 							r = lv.c.Request(hlref.TranDownloadFldr, sfld(hlref.FFileName, "dir"))
 						default:
